@@ -720,3 +720,5 @@ V("C13", "json-and-lines-swapped", "F", "R9", R + "cli/lint.py", "        click.
 V("C13", "json-sets-not-serialised", "F", "R10", R + "lint.py", "        default=custom_serializer,\n", "")
 V("C13", "plain-files-without-licence-not-listed", "F", "R1", R + "lint.py", "            for file in sorted(files_without_licenses_excl):\n                output.write(f\"* {file}\\n\")\n", "            for file in sorted(files_without_licenses_excl):\n                pass\n")
 V("C09", "empty-style-clears-only-a-found-header", "S", "", HDP, "    if style is EmptyCommentStyle:\n        after = \"\"\n", "    if style is EmptyCommentStyle and header:\n        after = \"\"\n")
+V("C14", "concluded-join-through-a-local", "S", "", RPT, '            report.license_concluded = (\n                _LICENSING.parse(\n                    " AND ".join(\n                        f"({expression})"\n                        for reuse_info in reuse_infos\n                        for expression in reuse_info.spdx_expressions\n                    ),\n                )\n                .simplify()\n                .render()\n            )\n', '            conjunction = " AND ".join(\n                f"({expression})"\n                for reuse_info in reuse_infos\n                for expression in reuse_info.spdx_expressions\n            )\n            report.license_concluded = (\n                _LICENSING.parse(conjunction).simplify().render()\n            )\n')
+V("C14", "concluded-join-not-simplified", "F", "R1", RPT, "                .simplify()\n                .render()\n", "                .render()\n")
